@@ -450,4 +450,4 @@ vf::CaseResult run_case(const std::string &id, const Program &prog, Stats &st) {
 
 }  // namespace target
 
-int main(int argc, char **argv) { return vf::generic_main(argc, argv); }
+VF_DEFINE_MAIN
